@@ -510,6 +510,35 @@ pub fn unsafe_templates() -> Vec<(&'static str, &'static str, String, String)> {
     v
 }
 
+/// API that must NOT exist because it would let safe code break an invariant the handles rely on: a
+/// UniqueArc lending its inner Arc (clonable => no longer unique), Clone for UniqueArc, mutable access
+/// through shared handles. (class "noapi": rejected with a trait-bound / method-resolution / mutability error)
+pub fn noapi_templates() -> Vec<(&'static str, String, String)> {
+    let mut v: Vec<(&'static str, String, String)> = vec![];
+    let mut t = |name: &'static str, neg: &str, pos: &str| v.push((name, neg.to_string(), pos.to_string()));
+    t("UniqueArc must not be Clone", "fn need<X: Clone>() {} need::<triomphe::UniqueArc<u8>>();", "fn need<X: Clone>() {} need::<triomphe::Arc<u8>>();");
+    t("UniqueArc must not lend its inner Arc through AsRef", "fn f(u: &triomphe::UniqueArc<u8>) -> &triomphe::Arc<u8> { u.as_ref() }", "fn f(u: &triomphe::Arc<u8>) -> &u8 { u.as_ref() }");
+    t("UniqueArc must not lend its inner Arc through Borrow", "fn f(u: &triomphe::UniqueArc<u8>) -> &triomphe::Arc<u8> { std::borrow::Borrow::borrow(u) }", "fn f(u: &triomphe::Arc<u8>) -> &u8 { std::borrow::Borrow::borrow(u) }");
+    t("UniqueArc must not deref to its inner Arc", "fn f(u: &triomphe::UniqueArc<u8>) -> &triomphe::Arc<u8> { &**u }", "fn f(u: &triomphe::UniqueArc<u8>) -> &u8 { &**u }");
+    t("&UniqueArc must not convert into an Arc", "fn f(u: &triomphe::UniqueArc<u8>) -> triomphe::Arc<u8> { u.into() }", "fn f(u: triomphe::UniqueArc<u8>) -> triomphe::Arc<u8> { u.shareable() }");
+    t("Arc must not give mutable access through Deref", "let mut a = triomphe::Arc::new(1u8); *a = 2;", "let mut a = triomphe::UniqueArc::new(1u8); *a = 2;");
+    t("Arc must not be AsMut", "fn f(a: &mut triomphe::Arc<u8>) -> &mut u8 { a.as_mut() }", "fn f(a: &mut triomphe::Arc<u8>) -> Option<&mut u8> { triomphe::Arc::get_mut(a) }");
+    t("OffsetArc must not give mutable access through Deref", "let mut a = triomphe::Arc::into_raw_offset(triomphe::Arc::new(1u8)); *a = 2;", "let mut a = triomphe::Arc::into_raw_offset(triomphe::Arc::new(1u8)); *a.make_mut() = 2;");
+    t("ThinArc must not give mutable access through Deref", "let mut t = triomphe::ThinArc::from_header_and_slice(1u8, &[1u16]); t.header.header = 2;", "let t = triomphe::ThinArc::from_header_and_slice(1u8, &[1u16]); let _h = t.header.header;");
+    t("ArcBorrow must not give mutable access", "let a = triomphe::Arc::new(1u8); let mut b = a.borrow_arc(); *b = 2;", "let a = triomphe::Arc::new(1u8); let b = a.borrow_arc(); let _x = *b;");
+    t("ArcBorrow must not be constructible from a plain reference by From/Into", "fn f(r: &u8) -> triomphe::ArcBorrow<'_, u8> { r.into() }", "fn f(a: &triomphe::Arc<u8>) -> triomphe::ArcBorrow<'_, u8> { a.borrow_arc() }");
+    v
+}
+
+pub fn noapi_probes() -> Vec<Probe> {
+    let mut out = vec![];
+    for (i, (name, neg, pos)) in noapi_templates().into_iter().enumerate() {
+        out.push(Probe { class: "noapi", name: format!("nneg_{}", i), body: format!("    {}", neg), expect_reject: true, what: format!("{} [must be rejected]", name), nontrivial: true });
+        out.push(Probe { class: "noapi", name: format!("npos_{}", i), body: format!("    {}", pos), expect_reject: false, what: format!("{} [legal twin, must compile]", name), nontrivial: false });
+    }
+    out
+}
+
 pub fn unsafe_probes() -> Vec<Probe> {
     let mut out = vec![];
     for (i, (class, name, neg, pos)) in unsafe_templates().into_iter().enumerate() {
@@ -673,6 +702,7 @@ fn verdict(p: &Probe, codes: &[String]) -> Result<(), String> {
         "auto" => vec!["E0277"],
         "unsafe" => vec!["E0133"],
         "mut" => vec!["E0596"],
+        "noapi" => vec!["E0277", "E0599", "E0594", "E0308", "E0596", "E0614", "E0282", "E0609", "E0610"],
         _ => BORROW_CODES.to_vec(),
     };
     if p.expect_reject {
@@ -731,6 +761,7 @@ pub fn generate(tier: Tier, seed: u64) -> Vec<Probe> {
         }
     }
     v.extend(unsafe_probes());
+    v.extend(noapi_probes());
     // random nested payload types
     let n_random = if tier == Tier::Quick { 900 } else { 16_000 };
     let mut cfg = Config::default();
@@ -772,7 +803,7 @@ pub fn run_parent(tier: Tier, seed: u64) -> i32 {
         }
     };
     let mut batches: Vec<Vec<usize>> = vec![];
-    for class in ["auto", "borrow", "unsafe", "mut", "borrow-eyepatch"] {
+    for class in ["auto", "borrow", "unsafe", "mut", "noapi", "borrow-eyepatch"] {
         if class == "borrow-eyepatch" && lib_ey.is_none() {
             continue;
         }
@@ -881,7 +912,7 @@ pub fn run_parent(tier: Tier, seed: u64) -> i32 {
         json!({
             "evaluations": evaluated,
             "distinct_nontrivial": distinct_nt.len(),
-            "rule": "probe programs compiled by rustc (--emit=metadata) against the rlib built from /repo (default features, guard off): (a) the complete grid of 12 handle kinds x witnesses of the four auto-trait classes (u8, Cell<u8>, MutexGuard<'static,u8>, Rc<u8>, *const u8; both parameters independently for two-parameter kinds) x {Send, Sync}; generic probes `fn g<T: B>() { need::<K<T>>() }` for every bound set B of {Send, Sync}; Arc<dyn Trait + bounds>; (b) 58 borrow / lifetime / variance / dropck templates, each with a legal twin that must compile, compiled against the default configuration AND against the nightly `unstable_dropck_eyepatch` configuration (where Arc's Drop impl is #[may_dangle]); (b2) every documented-unsafe public function called outside an unsafe block must be rejected (E0133), every mutating entry point called on an immutable binding must be rejected (E0596), twins with `unsafe {}` / `let mut` must compile; (c) proptest-generated nested payload types (Option, tuple, array, Box, Vec, triomphe::Arc, std Arc, Mutex, &'static, PhantomData over the witnesses, depth <=3). Oracle: an independent auto-trait model (Arc-likes: Send <=> Sync <=> all payloads Send + Sync; UniqueArc like Box) and the expected reject/accept of each template; rejects must carry E0277 resp. a borrow-check code, accepts no error. Non-trivial: every expected-reject probe, every generic probe, every nested payload. distinct = by probe text.",
+            "rule": "probe programs compiled by rustc (--emit=metadata) against the rlib built from /repo (default features, guard off): (a) the complete grid of 12 handle kinds x witnesses of the four auto-trait classes (u8, Cell<u8>, MutexGuard<'static,u8>, Rc<u8>, *const u8; both parameters independently for two-parameter kinds) x {Send, Sync}; generic probes `fn g<T: B>() { need::<K<T>>() }` for every bound set B of {Send, Sync}; Arc<dyn Trait + bounds>; (b) 58 borrow / lifetime / variance / dropck templates, each with a legal twin that must compile, compiled against the default configuration AND against the nightly `unstable_dropck_eyepatch` configuration (where Arc's Drop impl is #[may_dangle]); (b2) every documented-unsafe public function called outside an unsafe block must be rejected (E0133), every mutating entry point called on an immutable binding must be rejected (E0596), twins with `unsafe {}` / `let mut` must compile; (b3) API that must not exist (UniqueArc: Clone / AsRef<Arc> / Borrow<Arc> / Deref to Arc / Into<Arc> from a reference; mutable access through Arc, OffsetArc, ThinArc, ArcBorrow) must be rejected; (c) proptest-generated nested payload types (Option, tuple, array, Box, Vec, triomphe::Arc, std Arc, Mutex, &'static, PhantomData over the witnesses, depth <=3). Oracle: an independent auto-trait model (Arc-likes: Send <=> Sync <=> all payloads Send + Sync; UniqueArc like Box) and the expected reject/accept of each template; rejects must carry E0277 resp. a borrow-check code, accepts no error. Non-trivial: every expected-reject probe, every generic probe, every nested payload. distinct = by probe text.",
             "samples": samples,
             "class_histogram": hist,
             "batches": batches.len(),
@@ -923,6 +954,7 @@ pub fn replay(path: &Path) -> i32 {
         Some("auto") => "auto",
         Some("unsafe") => "unsafe",
         Some("mut") => "mut",
+        Some("noapi") => "noapi",
         Some("borrow-eyepatch") => "borrow-eyepatch",
         _ => "borrow",
     };
